@@ -194,6 +194,30 @@ theorem seq_deadlock {c : Cfg} {blk : Nat} {tail : List CAct} {payload : Bytes} 
 
 /-! ## wait -/
 
+/-- `Child::wait(self)` / `wait_with_output(self)` with `stdin` still inside the `Child` (plan `held`, the
+code since the repair of F201: stdin is dropped before the wait starts): for every child program — in
+particular one that reads stdin to end of file —, every capacity and chunk size and BOTH drivers, every
+maximal schedule finishes, the wait returns the status the program denotes on the empty input and the
+readers have everything the child wrote. (Before the repair: `Cex.F201_counterexample`.) -/
+theorem wait_closes_stdin_first {c : Cfg} {script : List CAct} {es : List Ev} {s : St}
+    (hp : c.Pos) (hw : wfScript script = true) (hplan : c.plan = .held)
+    (hr : run c (init script [] false) es = some s) (hs : Stuck c s) :
+    s.completed = true ∧ s.wt = .done (denS script []).st ∧
+    s.rout = (denS script []).out ∧ s.rerr = (denS script []).err := by
+  have hi := inv_run (inv_init c script [] false) hr
+  have hwf := wf_run (s := init script [] false) (by simpa [init] using hw) hr
+  have hc := stuck_completed_small hp hi hwf (by simp [init])
+    (by intro x; rw [hplan]; cases x <;> rfl) (by intro x; rw [hplan]; cases x <;> rfl)
+    (by intro x; rw [hplan]; cases x <;> rfl) hs
+  obtain ⟨h1, h2, -, -, h5, -⟩ := completed_den hr hc
+  exact ⟨hc, by simpa [init] using h5, by simpa [init] using h1, by simpa [init] using h2⟩
+
+/-- `wait` never makes up a status: what it hands out is the child's status or nothing (the error of
+`waitpid` when something else in the process has reaped the child). -/
+theorem wait_never_fabricates (reaped : Bool) (st st' : Status) (h : waitOutcome reaped st = some st') : st' = st := by
+  cases reaped <;> simp [waitOutcome] at h
+  exact h.symm
+
 /-- `wait` returns the child's real status: whenever the wait is done with `st`, the child has exited
 with `st` — and in a finished run that is the status the program denotes. -/
 theorem wait_real_status {c : Cfg} {script : List CAct} {payload : Bytes} {b : Bool} {es : List Ev} {s : St}
@@ -330,6 +354,13 @@ example :
 
 /-- `seq_deadlock` is not vacuous: 6 bytes > 2 + 2 + 1 -/
 example : seqCfg.capIn + 2 + seqCfg.capOut < ([1, 2, 3, 4, 5, 6] : Bytes).length ∧ seqCfg.plan.deps .Ro .W = true := by
+  decide
+
+/-- `cat` with `child.wait().await` and stdin untouched (plan `held`) on the polling driver -/
+example :
+    let c : Cfg := { exCfg with plan := .held, blocking := true }
+    let s := runCanon c 100 (init [.copy none 4 .out, .emit .out [9], .exit 5] [] false)
+    s.completed = true ∧ s.rout = [9] ∧ s.wt = .done (.exited 5) := by
   decide
 
 /-- wait-then-drain with outputs that fit (`fits_complete`): both pipes still hold their bytes after exit -/
